@@ -12,6 +12,7 @@ CONSTANTS Keys,          \* signing keys (non-zero)
           MaxItems,
           Kinds,         \* subset of {"ok","z","R","msg","key"}
           Blinders,      \* blinder values
+          BigPlans,      \* explicit plans [n, ks, kd, ds] for large batches (n > MaxItems): sizes up to 65
           EMIT
 
 VARIABLES pc, sc
@@ -33,6 +34,13 @@ Plan ==
           /\ \A j \in 1..n : (kd[j] \notin {"z", "R"}) => ds[j] = 1
           /\ sc' = [n |-> n, ks |-> ks, kd |-> kd, ds |-> ds]
   /\ pc' = IF sc'.n = 0 THEN <<"batch", 0>> ELSE <<"sign", 1>>
+  /\ UNCHANGED fvars
+
+\* large batches: one plan each, a fixed (pairwise different) blinder vector
+PlanBig ==
+  /\ pc[1] = "plan"
+  /\ \E pl \in BigPlans : sc' = pl
+  /\ pc' = <<"sign", 1>>
   /\ UNCHANGED fvars
 
 MsgOf(k) == <<100 + k>>
@@ -60,11 +68,13 @@ Item(j) == [vk  |-> <<"sk", IF sc.kd[j] = "key" THEN OtherKey(sc.ks[j]) ELSE sc.
 
 Batch ==
   /\ pc[1] = "batch"
-  /\ \E bl \in SeqsOf(Blinders, sc.n) : ActBatch([j \in 1..sc.n |-> Item(j)], bl)
+  /\ IF sc.n <= MaxItems
+     THEN \E bl \in SeqsOf(Blinders, sc.n) : ActBatch([j \in 1..sc.n |-> Item(j)], bl)
+     ELSE ActBatch([j \in 1..sc.n |-> Item(j)], [j \in 1..sc.n |-> (j % (Q - 1)) + 1])
   /\ pc' = <<"done", 0>>
   /\ UNCHANGED sc
 
-Next == MkKeys \/ Plan \/ SignItem \/ Spoil \/ Batch
+Next == MkKeys \/ Plan \/ PlanBig \/ SignItem \/ Spoil \/ Batch
 Spec == Init /\ [][Next]_vars
 
 -----------------------------------------------------------------------------
@@ -97,7 +107,7 @@ AcceptingVectors ==
 RECURSIVE IPow(_,_)
 IPow(a, k) == IF k = 0 THEN 1 ELSE a * IPow(a, k - 1)
 InvSoundness ==
-  (AtEnd /\ sc.n > 0 /\ NoIdentR /\ \E j \in 1..sc.n : ~Valid(j)) => AcceptingVectors = IPow(Q, sc.n - 1)
+  (AtEnd /\ sc.n > 0 /\ sc.n <= MaxItems /\ NoIdentR /\ \E j \in 1..sc.n : ~Valid(j)) => AcceptingVectors = IPow(Q, sc.n - 1)
 
 Emit == (EMIT /\ pc[1] = "done") =>
    PrintT(ToJson(Script("C19") @@ [probe |-> "batch",
